@@ -47,6 +47,7 @@ type Unit struct {
 	tinvDone map[string]bool
 	loopKeepSets [][]string
 	lemma bool
+	inCase bool
 	lemmaReveal *Block
 	side *lemmaSide
 	lemmaStep int
@@ -59,8 +60,9 @@ type Unit struct {
 }
 
 type Exit struct {
-	st      *State
-	results []Term
+	st       *State
+	results  []Term
+	fromCase bool
 }
 
 type PanicExit struct {
@@ -639,12 +641,16 @@ func (u *Unit) execDesignatedCase(n *ast.SwitchStmt, st *State, f Flow) {
 	inner := f
 	end := func(s *State) {
 		u.caseExits = append(u.caseExits, s.clone())
+		u.inCase = false
 		f.next(s)
+		u.inCase = true
 	}
 	inner.next = end
 	inner.brk = end
 	u.checkFallthrough(u.caseClause)
+	u.inCase = true
 	u.execList(u.caseClause.Body, cs, inner)
+	u.inCase = false
 }
 
 func (u *Unit) checkFallthrough(cc *ast.CaseClause) {
